@@ -23,7 +23,7 @@ def gen_inputs(ctx):
     out = []
     fixed = [
         b"USER \xff\xfe\r\n", b"\xff\r\n", b"PWD\xc3\r\n", b"\x00\r\n", b"\r\n", b"\n", b"   \r\n", b"PWD\rPWD\r\n", b"NOOP" * 10 + b"\r\n",
-        b"A" * 70000 + b"\r\n", b"PWD " + b"x" * 66000 + b"\r\n", b"PWD", b"USER bo", b"", b"\xe2\x82", b"MKD \xed\xa0\x80\r\n",
+        b"A" * 70000 + b"\r\n", b"PWD " + b"x" * 66000 + b"\r\n", b"PWD", b"USER bo", b"", b"\xe2\x82", b"MKD \xed\xa0\x80\r\n", b"MKD \xff\xfe\r\n", b"MKD d/\xff\r\n", b"RNFR f.txt\r\nRNTO \xfe\r\n",
         b"CWD " + "é".encode("latin-1") + b"\r\n", b"REST \xc2\xb2\r\n", b"PWD\r\n\xff\r\nPWD\r\n", b"TYPE I\r\n" * 50,
     ]
     for f in fixed:
@@ -174,6 +174,12 @@ def run(ctx, compare=True):
     jobs = []
     for fam, data in inputs:
         jobs.append((data, rng.random() < 0.5, rng.choice(["close", "vanish"])))
+    # the hand-written inputs both ways (logged in and not), whatever the random draw above was
+    for fam, data in list(inputs):
+        if fam == "fixed":
+            for lf in (True, False):
+                inputs.append((fam, data))
+                jobs.append((data, lf, "close"))
     # orderly and garbage endings cut off by a reset before the answer is out (every offset of a few loop turns)
     # ... under several iteration orders of the server's task sets (`done`, `pending`): which of two tasks finished in
     # the same loop turn is looked at first is a scheduling choice the outcome must not depend on
